@@ -74,6 +74,117 @@ Lemma numfmt_names :
   = sort_strs (map s2l ["decimal"; "lowerLetter"; "upperLetter"; "lowerRoman"; "upperRoman"; "bullet"]%string).
 Proof. vm_compute. reflexivity. Qed.
 
+
+(* ------------------------------------------------------------------ *)
+(* the handlers of TagRunner, as read from the source on every run      *)
+(* (gen/Tables.v handler_facts): return flag, collector calls, string   *)
+(* literals, attribute names -- against what model/Walk.v was written   *)
+(* from.  The literals are stated with the MODEL's constants.           *)
+(* ------------------------------------------------------------------ *)
+Definition S := s2l.
+Definition w_ (a : str) : str := S "w:"%string ++ a.
+Definition r_ (a : str) : str := S "r:"%string ++ a.
+Definition lt (s : str) : str := 60 :: s.
+Definition model_handler_facts
+  : list ((str * str) * (option bool * (list str * (list str * list str)))) :=
+  [ ((S "close", S "PARAGRAPH"), (None, ([S "tables.conclude_paragraph"], ([], []))));
+    ((S "close", S "RUN"), (None, ([S "tables.conclude_run"], ([], []))));
+    ((S "close", S "TABLE_CELL"),
+       (None, ([S "tables.set_caret"; S "tables.set_caret"],
+               ([s_vMerge; S "Not None"; s_continue; s_gridSpan], []))));
+    ((S "open", S "BR"), (Some true, ([S "tables.add_code_into_open_run"], ([[10]], []))));
+    ((S "open", S "COMMENT_RANGE_END"), (Some false, ([S "tables.end_comment_range"], ([], [w_ s_id]))));
+    ((S "open", S "COMMENT_RANGE_START"), (Some false, ([S "tables.start_comment_range"], ([], [w_ s_id]))));
+    ((S "open", S "ENDNOTE"),
+       (Some true, ([S "tables.queue_run_for_next_paragraph"],
+                    ([[]; s_separator; s_endnote; [41; 9]], [w_ s_type; w_ s_id]))));
+    ((S "open", S "ENDNOTE_REFERENCE"),
+       (Some true, ([S "tables.insert_text_as_new_run"], ([s_dashes ++ s_endnote; s_dashes], [w_ s_id]))));
+    ((S "open", S "FOOTNOTE"),
+       (Some true, ([S "tables.queue_run_for_next_paragraph"],
+                    ([[]; s_separator; s_footnote; [41; 9]], [w_ s_type; w_ s_id]))));
+    ((S "open", S "FOOTNOTE_REFERENCE"),
+       (Some true, ([S "tables.insert_text_as_new_run"], ([s_dashes ++ s_footnote; s_dashes], [w_ s_id]))));
+    ((S "open", S "FORM_CHECKBOX"), (Some true, ([S "tables.insert_text_as_new_run"], ([], []))));
+    ((S "open", S "FORM_DDLIST"),
+       (Some true, ([S "tables.insert_text_as_new_run"; S "tables.escape"], ([], []))));
+    ((S "open", S "HYPERLINK"),
+       (Some false, ([S "tables.insert_text_as_new_run"; S "tables.insert_text_as_new_run"],
+                     ([[35]; lt s_a_href; [34; 62]; lt (47 :: s_a ++ [62])], [r_ s_id; w_ s_anchor]))));
+    ((S "open", S "IMAGE"),
+       (Some true, ([S "tables.insert_text_as_new_run"], ([s_dashes; s_dashes], [r_ s_embed]))));
+    ((S "open", S "IMAGEDATA"),
+       (Some true, ([S "tables.insert_text_as_new_run"], ([s_dashes; s_dashes], [r_ s_id]))));
+    ((S "open", S "IMAGE_ALT"),
+       (Some true, ([S "tables.escape"; S "tables.insert_text_as_new_run"], ([s_alt_prefix; [60]], [s_descr]))));
+    ((S "open", S "MATH"),
+       (Some false, ([S "tables.escape"; S "tables.insert_text_as_new_run"],
+                     ([[]; lt (s_latex ++ [62]); lt (47 :: s_latex ++ [62])], []))));
+    ((S "open", S "PARAGRAPH"),
+       (Some true, ([S "tables.commence_paragraph"; S "bullets.get_bullet"; S "bullets.get_list_position";
+                     S "tables.insert_text_as_new_run"], ([], []))));
+    ((S "open", S "RUN"), (Some true, ([S "tables.commence_run"], ([], []))));
+    ((S "open", S "SYM"),
+       (Some true, ([S "tables.add_code_into_open_run"],
+                    ([[]; lt s_span_font; [62; 38; 35; 120; 48]; 59 :: lt (47 :: s_span ++ [62])],
+                     [w_ s_font; w_ s_char]))));
+    ((S "open", S "TAB"), (Some true, ([S "tables.insert_text_as_new_run"], ([[9]], []))));
+    ((S "open", S "TEXT"), (Some true, ([S "tables.add_text_into_open_run"], ([[]], []))));
+    ((S "open", S "TEXT_MATH"), (Some true, ([S "tables.add_text_into_open_run"], ([[]], [])))) ]%string.
+
+Fixpoint strs_eqb' (a b : list str) : bool :=
+  match a, b with
+  | [], [] => true
+  | x :: a', y :: b' => str_eqb x y && strs_eqb' a' b'
+  | _, _ => false
+  end.
+Definition obool_eqb (a b : option bool) : bool :=
+  match a, b with
+  | None, None => true
+  | Some x, Some y => Bool.eqb x y
+  | _, _ => false
+  end.
+Definition hrow_eqb (a b : (str * str) * (option bool * (list str * (list str * list str)))) : bool :=
+  let '((k1, n1), (r1, (c1, (l1, a1)))) := a in
+  let '((k2, n2), (r2, (c2, (l2, a2)))) := b in
+  str_eqb k1 k2 && str_eqb n1 n2 && obool_eqb r1 r2 && strs_eqb' c1 c2 && strs_eqb' l1 l2 && strs_eqb' a1 a2.
+Fixpoint rows_eqb (a b : list ((str * str) * (option bool * (list str * (list str * list str))))) : bool :=
+  match a, b with
+  | [], [] => true
+  | x :: a', y :: b' => hrow_eqb x y && rows_eqb a' b'
+  | _, _ => false
+  end.
+
+(* every handler of the source has the return flag, the collector calls, the
+   string literals (markers!) and the attribute names the model was written from *)
+Lemma handlers_match_model : rows_eqb handler_facts model_handler_facts = true.
+Proof. vm_compute. reflexivity. Qed.
+
+(* ... and the model's own open_tag really has those return flags: probe each
+   handler on an element carrying every attribute a handler may require *)
+Definition probe_einfo (tag : str) : einfo :=
+  {| e_ptag := tag; e_uri := Some [85]; e_local := [120]; e_wuri := Some [85]; e_ruri := Some [82];
+     e_attrs := [((Some [85], s_id), [49]); ((Some [82], s_id), [113]); ((Some [82], s_embed), [113]);
+                 ((None, s_descr), [100]); ((Some [85], s_char), [70; 48; 52; 49]);
+                 ((Some [85], s_font), [70])];
+     e_text := Some [97]; e_tail := None |}.
+Definition probe_env : env :=
+  {| env_x2h := []; env_rels := [([113], [116])]; env_dup := true; env_numtbl := [] |}.
+Definition probe_flag (tag : str) : option bool :=
+  match open_tag probe_env [] (AE (probe_einfo tag) []) (probe_einfo tag) [] [] init_cst with
+  | Ok (_, b) => Some b
+  | Err _ => None
+  end.
+Definition tag_value (name : str) : str :=
+  match find (fun kv => str_eqb (fst kv) name) tags_table with Some (_, v) => v | None => [] end.
+Lemma recurse_flags_match_source :
+  forallb (fun row => if str_eqb (fst (fst row)) (S "open"%string)
+                      then obool_eqb (probe_flag (tag_value (snd (fst row)))) (fst (snd row))
+                      else true) handler_facts = true.
+Proof. vm_compute. reflexivity. Qed.
+
+Print Assumptions handlers_match_model.
+Print Assumptions recurse_flags_match_source.
 Print Assumptions open_handlers_match_source.
 Print Assumptions close_handlers_match_source.
 Print Assumptions properties_are_not_content.
